@@ -128,6 +128,7 @@ def access_probes():
     out.append(("acc:intrinsics_io", HDR + "push(d0.Setting)\npush(3)\ndb.Setting = pop()\ndb.Mode = peek()\nx = pop()\ndb.On = l(d1, LogicType.Setting)\ns(d2, LogicType.On, x)\ndb.Open = lb(HASH(\"StructureBattery\"), LogicType.Charge, LogicBatchMethod.Sum)\nsleep(2)\nyield_()\ndb.Lock = 1\n"))
     out.append(("acc:const_list", HDR + "k = d0.Setting\ndb.Setting = [5, 6][k]\ndb.Mode = [1, 2, 3][k]\ndb.On = [10, 20, 30, 40, 50][d1.Setting]\nfor v in [3, 1, 2]:\n    db.Open = v\n"))
     out.append(("acc:for_list_hash", HDR + "for nm in [HASH(\"O2\"), HASH(\"N2\"), HASH(\"CO2\")]:\n    p = GasSensors[nm].Average.Pressure\n    ConsoleLED5s[nm].Setting = p\n"))
+    out.append(("acc:string_operands", HDR + "x = d0.Setting\nif x == STR(\"#1\"):\n    db.Setting = 1\nelse:\n    db.Setting = 2\nc = 0\nwhile d1.Mode != HASH(\"Item #2\"):\n    c += 1\n    db.Mode = c\n    if c >= 2:\n        break\nif HASH(\"a: b\") == d2.Setting:\n    db.On = STR(\"a b\")\nGrowLights[\"Pump #2\"].On = x > STR(\"##\")\n"))
     out.append(("acc:named_const", HDR + "A = 50\nB = 20\nC = A * B\ndb.Setting = C / 1000 + d0.Setting\ndb.Mode = pi * 2 - tau\n"))
     out.append(("acc:global_scope", HDR + "g = d0.Setting\n\ndef show():\n    db.Setting = g\n\ndef bump():\n    global g\n    g = g + 1\n\nshow()\nbump()\nshow()\nbump()\ndb.Mode = g\n"))
     out.append(("acc:while_true", HDR + "n = 0\nwhile True:\n    yield_()\n    n = n + 1\n    db.Setting = n\n    if d0.Setting > n:\n        continue\n    db.Mode = n\n    if n >= 3:\n        break\ndb.On = n\n"))
